@@ -336,19 +336,22 @@ def rule_spec_tag(rep, F, inv, cddl):
     rep.floor("writers with a semantic tag compared", 14, n)
     # compact constructor tags
     rep.rule("SPEC-tag-constr", "compact Plutus constructor tags: 121 + i for i < 7, 1280 + (i - 7) for 7 <= i <= 127")
+    import piecewise as pw
     ids = F.by_key("ConstrPlutusData::alternative_to_compact_cbor_tag")
     if len(ids) != 1:
         rep.lost("ConstrPlutusData::alternative_to_compact_cbor_tag not found")
     else:
-        lits = set()
-        for x in H.walk(F.hir[ids[0]]["body"]):
-            v = H.lit_int(x)
-            if v is not None:
-                lits.add(v)
         rep.inst("SPEC-tag-constr")
-        need = {121, 1280, 7}
-        if not need <= lits or not ({127, 128} & lits):
-            rep.violation("SPEC-tag-constr", "constants|%s" % sorted(lits), "alternative_to_compact_cbor_tag uses the constants %s; the CDDL ranges need 121, 7, 1280 and 127/128" % sorted(lits), {})
+        want = [(0, 6, ("affine", 121)), (7, 127, ("affine", 1273)), (128, (1 << 64) - 1, ("none",))]
+        try:
+            got = pw.table(F, ids[0])
+        except pw.NotPiecewise as e:
+            rep.lost("alternative_to_compact_cbor_tag is no longer a piecewise-affine table (%s): re-anchor" % e)
+            got = None
+        if got is not None and got != want:
+            def show(t):
+                return "; ".join("%d..%s -> %s" % (lo, hi if hi < (1 << 63) else "max", "general form" if r[0] == "none" else "tag = alt %+d" % r[1] if r[0] == "affine" else "tag %d" % r[1]) for lo, hi, r in t)
+            rep.violation("SPEC-tag-constr", "table|%s" % show(got)[:80], "compact constructor tags: the code computes {%s}; the CDDL has {%s} (tags 121..127 for alternatives 0..6, 1280..1400 for 7..127, #6.102 beyond)" % (show(got), show(want)), {})
 
 
 def rule_wset(rep, F, inv, cddl):
